@@ -557,6 +557,15 @@ fn run(tier: Tier, shard: usize, n: usize) -> Report {
 	}
 	let mut ops = vec![];
 	dfs(&mut x, &root, &hist, &mut ops, &mut rep, (0, n));
+	// third start: the same two-chunk state driven with one-output blocks, so that spends make the number of
+	// unspent outputs fall far below the number of leaves while old chunks keep unspent leaves at high indices
+	// (what a restart rebuilds the accumulator from is the leaf set and a size)
+	x.ks = vec![1];
+	x.sels = vec![Sel::None, Sel::EveryOtherOfOldestChunk, Sel::LastOfChunk0, Sel::AllOfChunk1];
+	// (the start state itself was expanded by the second start with another alphabet)
+	x.memo.clear();
+	let mut ops = vec![];
+	dfs(&mut x, &root, &hist, &mut ops, &mut rep, (0, n));
 	let _ = x.n;
 	rep
 }
